@@ -10,6 +10,7 @@ mod statebuild;
 mod props;
 mod select;
 mod sim;
+mod srv;
 mod util;
 mod wire;
 mod wirecheck;
